@@ -123,7 +123,9 @@ ReqViol(st, e, staged1) ==
 
 ReqStep(st, e) ==
   LET k == e.kind
-      staged1 == IF k = "load" /\ Executed(e) THEN LoadAct(st.staged, e.update, e.action)
+      (* (the router changes a database only while the session has one open) *)
+      dbOpen == ~Has(e, "db_open") \/ e.db_open
+      staged1 == IF k = "load" /\ Executed(e) /\ dbOpen THEN LoadAct(st.staged, e.update, e.action)
                  ELSE IF k = "open" /\ Executed(e) THEN st.eph ELSE st.staged
       names == IF k = "load" THEN {e.update.policies[i].policy : i \in {i \in 1..Len(e.update.policies) : ~e.update.policies[i].delete}} ELSE {}
       dels  == IF k = "load" THEN {e.update.policies[i].policy : i \in {i \in 1..Len(e.update.policies) : e.update.policies[i].delete}} ELSE {}
@@ -138,7 +140,7 @@ ReqStep(st, e) ==
         !.faulted = @ \/ (e.fault \notin {"none", "late-ok"} /\ ~(k = "close-session" /\ e.fault = "close-after")),
         !.commitSeen = @ \/ k = "commit",
         !.commitAcked = @ \/ (k = "commit" /\ Acked(e) /\ Effective(e)),
-        !.eph = IF k = "commit" /\ (e.fault \in {"none", "late-ok"} \/ Mut(e)) /\ Effective(e) THEN staged1 ELSE @,
+        !.eph = IF k = "commit" /\ (e.fault \in {"none", "late-ok"} \/ Mut(e)) /\ Effective(e) /\ dbOpen THEN staged1 ELSE @,
         !.closeDbAcked = @ \/ (k = "close-db" /\ Acked(e) /\ e.fault \in {"none", "late-ok"}),
         !.closeSessAcked = @ \/ (k = "close-session" /\ Acked(e)),
         !.updated = @ \cup names, !.deleted = @ \cup dels,
@@ -156,7 +158,12 @@ ExitViol(st, e) ==
   \cup (IF ok /\ ~st.commitAcked THEN {V("C04", "SuccessWithoutAcknowledgedCommit", "", e)} ELSE {})
   \cup (IF ok /\ ~(st.closeDbAcked /\ st.closeSessAcked) THEN {V("C04", "SuccessWithoutAcknowledgedClose", "", e)} ELSE {})
   \cup (IF ok /\ st.faulted THEN {V("C04", "FailedStepButRunReportedSuccess", "", e)} ELSE {})
+  (* two statements that qualify share one name: there is no telling which expression the name stands for - the run  *)
+  (* must not go on as if there were (the agent refuses such a configuration)                                        *)
+  \cup (IF ok /\ Has(st.expect, "ambiguous") /\ st.expect.ambiguous
+        THEN {V("C16", "RunSucceededAlthoughTwoManagedStatementsShareAName", "", e)} ELSE {})
   \cup (IF ~ok /\ ~st.faulted /\ st.irrmode = "ok" /\ ~e.timed_out /\ ~(Has(st.expect, "foreign") /\ st.expect.foreign)
+           /\ ~(Has(st.expect, "ambiguous") /\ st.expect.ambiguous)
         THEN {V(st.expect.prop, "RunFailedWithoutAnyFault",
                 IF e.panicked THEN "a task panicked" ELSE IF st.repeat THEN "repeat run (read-back of the installed state)"
                 ELSE IF st.style # "" THEN "replies re-serialised: " \o st.style ELSE "exit " \o ToString(e.code), e)}
